@@ -256,6 +256,8 @@ def token_semantics(prog):
                     n = e[2][1]
                     if n[0] == 'app' and n[1].split('::')[-1] == 'new' and len(n[2]) == 1 and is_adt(n[2][0], 'operator::Operator'):
                         seq.append(n[2][0])
+                    elif is_adt(n, 'tree::Node') and n[4] and is_adt(n[4][0], 'operator::Operator'):
+                        seq.append(n[4][0])
             out.append(seq)
         return out
     names = [v['name'] for v in tok['variants']]
